@@ -165,6 +165,12 @@ def fromBlock (bits : Nat) (d : DAddr) (block : List Nat) : Except Err Nat :=
 def mergeLane (w : Nat) (bits s : Nat) (v : Nat) : Nat :=
   w - ((w / 2 ^ s) % 2 ^ bits) * 2 ^ s + v * 2 ^ s
 
+/-- The lane check the `*_into_block` / `*_from_block` helpers perform before touching the block. -/
+def laneErr (bits : Nat) (d : DAddr) : Option Err :=
+  if bits = 8 then none
+  else if bits = 16 then (if d.byteOff > 2 then some (.byteOffset d.byteOff 2) else none)
+  else (if d.byteOff ≠ 0 then some (.byteOffset d.byteOff 0) else none)
+
 /-- `byte_into_block / halfword_into_block / word_into_block`. -/
 def intoBlock (bits : Nat) (d : DAddr) (block : List Nat) (v : Nat) : Except Err (List Nat) :=
   if bits = 8 then .ok (block.set d.blockOff (mergeLane (wordAt block d.blockOff) 8 (d.byteOff * 8) v))
@@ -316,7 +322,11 @@ def DSys.writeWT {σ : Type} (P : PolicyOps σ) (s : DSys σ) (bits : Nat) (addr
     let s1 := { s with sets := sets1, hits := s.hits + (if hit then 1 else 0), lastHit := hit,
                        accesses := s.accesses + 1 }
     let upd : Except Err (DSys σ) := match cached with
-      | none => .ok s1
+      | none =>
+        -- miss: nothing is allocated, but a write that crosses a word boundary is rejected as on a hit
+        match laneErr bits d with
+        | some e => .error e
+        | none => .ok s1
       | some block =>
         match intoBlock bits d block v with
         | .error e => .error e
